@@ -41,6 +41,14 @@ class SymSeq:
     def kvc_truth(self, interp):
         return mkbool(sint(self.length).t > 0)
 
+    def kvc_eq(self, interp, other):
+        # equality of two sequences of unknown length is not decidable from the models: both outcomes are explored
+        if hasattr(other, 'kvc_symbolic_seq') or isinstance(other, (tuple, list)):
+            if other is self:
+                return True
+            return SBool(z3.Bool(current().fresh('seq_equal')))
+        return False
+
     def kvc_totuple(self, interp):
         return SymSeq(interp, self.length, self.getter, 'tuple')
 
